@@ -34,41 +34,80 @@ def parseField? (verb : String) (v : String) : Option Field :=
 
 def argField (a : String) : String := if a == "Amount.String()" then "Amount" else a
 
+/-- the hashed fields of a claim written as `Field=value,…`, read against the GENERATED format (verbs/args of the
+claim type's `ClaimHash` in the current source); `Except.error` carries the driver's answer -/
+def claimFields (ty kvs : String) : Except String (List Field) :=
+  match claims.find? (fun c => c.name == ty) with
+  | none => .error "unknown-claim-type"
+  | some c =>
+    if c.format == "opaque" || c.verbs.length != c.args.length || c.seps.any (fun s => s != "" && s != "/") then .error "unsupported-format"
+    else
+      let kv := (splitList kvs).filterMap fun s => match s.splitOn "=" with
+        | [k, v] => some (k, v)
+        | _ => none
+      let fields := (c.args.zip c.verbs).mapM fun (a, verb) =>
+        match kv.find? (fun p => p.1 == argField a) with
+        | some (_, v) => parseField? verb v
+        | none => none
+      match fields with
+      | none => .error "bad-op"
+      | some fs =>
+        -- the field list must be an instance of the claim type's shape (the kinds of the generated verbs):
+        -- the shape `Props/C11.lean` (`Claim.wellTyped`, `same_key_same_claim`) speaks about
+        match shapeOfVerbs c.verbs with
+        | none => .error "unsupported-format"
+        | some ks => if !hasShape ks fs then .error "bad-op" else .ok fs
+
+def sha (pre : List Nat) : List Nat := (Paloma.Sha256.sha256 (pre.map UInt8.ofNat)).map (·.toNat)
+
+def hexOfBytes (l : List Nat) : String := Paloma.Sha256.toHex (l.map UInt8.ofNat)
+
 /-- `hash <ClaimType> Field=value,…` → hex of sha256 of the pre-image built from the GENERATED
     format (verbs/args of the claim type's `ClaimHash` in the current source). -/
 def step (args : List String) : String :=
   match args with
   | ["hash", ty, kvs] =>
-    match claims.find? (fun c => c.name == ty) with
-    | none => "unknown-claim-type"
-    | some c =>
-      if c.format == "opaque" || c.verbs.length != c.args.length || c.seps.any (fun s => s != "" && s != "/") then "unsupported-format"
-      else
-        let kv := (splitList kvs).filterMap fun s => match s.splitOn "=" with
-          | [k, v] => some (k, v)
-          | _ => none
-        let fields := (c.args.zip c.verbs).mapM fun (a, verb) =>
-          match kv.find? (fun p => p.1 == argField a) with
-          | some (_, v) => parseField? verb v
-          | none => none
-        match fields with
-        | none => "bad-op"
-        | some fs =>
-          -- the field list must be an instance of the claim type's shape (the kinds of the generated verbs):
-          -- the shape `Props/C11.lean` (`Claim.wellTyped`, `same_key_same_claim`) speaks about
-          match shapeOfVerbs c.verbs with
-          | none => "unsupported-format"
-          | some ks =>
-            if !hasShape ks fs then "bad-op" else
-            let pre := preimage fs
-            Paloma.Sha256.toHex (Paloma.Sha256.sha256 (pre.map UInt8.ofNat))
+    match claimFields ty kvs with
+    | .error e => e
+    | .ok fs => Paloma.Sha256.toHex (Paloma.Sha256.sha256 ((preimage fs).map UInt8.ofNat))
   | _ => "bad-op"
 
-/-- keeper-level consistency ops: the model's prediction is that every attestation key is the hash of
-    its own stored claim and votes are pooled only for identical claims (Props/C11.lean). -/
+/-- one submission of a history: `<validator>|<ClaimType>|x<chain id, hex>|Field=value,…` -/
+def parseVote? (s : String) : Option KVote :=
+  match s.splitOn "|" with
+  | [v, ty, ch, kvs] =>
+    match v.toNat?, ch.toList, claimFields ty kvs with
+    | some val, 'x' :: rest, .ok fs => (parseHex? (String.ofList rest)).map fun chain => ⟨val, chain, ty, fs⟩
+    | _, _, _ => none
+  | _ => none
+
+def showRes : KRes → String
+  | .rejected => "rej"
+  | .ok true n => s!"new:{n}"
+  | .ok false n => s!"join:{n}"
+
+/-- keeper-level ops.
+* `nonce …`: the prediction is that every attestation key is the hash of its own stored claim and votes are
+  pooled only for identical claims (Props/C11.lean).
+* `key x<chain> n<nonce> x<hash>`: the key of the attestation in the module's flat store (`flatKey`), hex.
+* `hist <vote> <vote> …`: a whole history of claim submissions run through the model of `Attest` from the empty
+  store, with SHA-256 as the hash; one result per submission: `rej`, `new:1` (a new attestation whose body is the
+  submitted claim), `join:<n>` (pooled into the existing attestation, which now has n votes). -/
 def stepKeeper (args : List String) : String :=
   match args with
   | ["nonce", _, _] => "consistent"
+  | ["key", ch, n, h] =>
+    match ch.toList, n.toList, h.toList with
+    | 'x' :: c, 'n' :: nn, 'x' :: hh =>
+      match parseHex? (String.ofList c), (String.ofList nn).toNat?, parseHex? (String.ofList hh) with
+      | some chain, some nonce, some hash =>
+        if nonce ≥ 18446744073709551616 then "bad-op" else hexOfBytes (flatKey chain nonce hash)
+      | _, _, _ => "bad-op"
+    | _, _, _ => "bad-op"
+  | "hist" :: votes =>
+    match votes.mapM parseVote? with
+    | none => "bad-op"
+    | some vs => ",".intercalate ((runVotes sha KState.init vs).2.map showRes)
   | _ => "bad-op"
 
 end Driver.C11
